@@ -902,6 +902,7 @@ def coq_ty(t):
     if t == "dec": return "dec"
     if t == "ordering": return "comparison"
     if t == "derr": return "derr"
+    if t == "tferr": return "tferr"
     if t[0] == "named" and t[1] == "DecimalError": return "derr"
     if t[0] == "result": return "(%s + %s)" % (coq_ty(t[1]), coq_ty(t[2]))
     if t[0] == "ref": return coq_ty(t[1])
@@ -916,8 +917,9 @@ def norm_ty(t, self_ty, assoc=None):
     if isinstance(t, tuple):
         if t[0] == "named":
             if t[1] == "Decimal": return "dec"
-            if t[1] == "Output" and assoc and "Output" in assoc:
-                return norm_ty(assoc["Output"], self_ty)
+            if assoc and t[1] in assoc and t[1] in ("Output", "Error"):
+                return norm_ty(assoc[t[1]], self_ty)
+            if t[1] == "TryFromDecimalError": return "tferr"
             if t[1] in ("Self", "Output"):
                 if self_ty is None: raise Unsupported("Self outside an impl")
                 return self_ty
@@ -1068,6 +1070,8 @@ class Fn:
                 return [], {"Less": "Lt", "Equal": "Eq", "Greater": "Gt"}[p[1]], "ordering"
             if len(p) == 2 and p[0] == "DecimalError":
                 return [], "E_" + p[1], "derr"
+            if len(p) == 2 and p[0] == "TryFromDecimalError":
+                return [], "TE_" + p[1], "tferr"
             if len(p) == 2 and (p[0] == "Decimal" or (p[0] == "Self" and self.self_ty == "dec")) and "Decimal::" + p[1] in self.impl_consts:
                 t, ce = self.impl_consts["Decimal::" + p[1]]
                 save = self.self_ty; self.self_ty = "dec"
@@ -1257,6 +1261,21 @@ class Fn:
             self.needs_dflt = True
             return [], "dflt", "mode"
         name = p[-1]
+        if len(p) == 2 and p[1] == "try_from" and len(x[2]) == 1 and (p[0] in INT_TYPES or (p[0] == "Self" and self.self_ty in INT_TYPES)):
+            T = p[0] if p[0] in INT_TYPES else self.self_ty
+            pre, a, t = self.e(x[2][0], env, None)
+            if resolve(t) == "dec":
+                key = "TryFrom_by_%s::try_from" % T
+                if key not in self.sigs: raise Unsupported("call of untranslated %s" % key)
+                return self.call_sig(key, x[2], env)
+            if resolve(t) not in INT_TYPES: raise Unsupported("try_from of %r" % (resolve(t),))
+            # core's TryFrom between integer types: Ok iff the value is in the target range (the error carries nothing)
+            return pre, "(if in_range %s %s then inl %s else inr tt)" % (COQ_ITY[T], atom(a), atom(a)), ("result", T, "unit")
+        if len(p) == 2 and p[1] == "from" and len(x[2]) == 1 and (p[0] == "Decimal" or (p[0] == "Self" and self.self_ty == "dec")):
+            pre, a, t = self.e(x[2][0], env, None)
+            key = "From_%s::from" % resolve(t)
+            if key not in self.sigs: raise Unsupported("call of untranslated %s" % key)
+            return self.call_sig(key, x[2], env)
         if len(p) == 2 and p[0] in INT_TYPES and p[1] == "from" and len(x[2]) == 1:
             pre, a, t = self.e(x[2][0], env, None)
             if not widening(t, p[0]):
@@ -2036,6 +2055,7 @@ PRIM_METHODS = {"cmp", "partial_cmp", "eq", "ne", "lt", "le", "gt", "ge", "abs",
                 "signum", "map", "unwrap", "unwrap_or", "unwrap_or_else", "is_negative", "is_positive", "hash", "default"}
 OUT_DEC = os.path.join(HERE, "..", "coq", "gen", "GenDec.v")
 OUT_INT = os.path.join(HERE, "..", "coq", "gen", "GenInt.v")
+OUT_CONV = os.path.join(HERE, "..", "coq", "gen", "GenConv.v")
 
 
 def generate(targets, file_consts, out_path, header, unit, base=None):
@@ -2178,7 +2198,7 @@ def generate(targets, file_consts, out_path, header, unit, base=None):
         import subprocess
         coqdir = os.path.join(HERE, "..", "coq")
         if os.path.exists(os.path.join(coqdir, "Makefile")):
-            subprocess.run(["make", "gen/GenCore.vo"] + (["gen/GenDec.vo"] if unit == "int" else []), cwd=coqdir,
+            subprocess.run(["make", "gen/GenCore.vo"] + (["gen/GenDec.vo"] if unit in ("int", "conv") else []), cwd=coqdir,
                            stdout=subprocess.DEVNULL, stderr=subprocess.DEVNULL, timeout=600)
     text = validate(out, status, deps=[os.path.dirname(out_path)] if base else [])
     old = open(out_path).read() if os.path.exists(out_path) else None
@@ -2206,7 +2226,9 @@ def main():
                "   to the hand-written model. *)",
                "From FP Require Import Machine GenCore.", "",
                "(* enum DecimalError (src/errors.rs): only the variants the translated functions name *)",
-               "Inductive derr := E_InternalOverflow | E_DivisionByZero | E_MaxNFracDigitsExceeded | E_InfiniteValue | E_NotANumber.", ""]
+               "Inductive derr := E_InternalOverflow | E_DivisionByZero | E_MaxNFracDigitsExceeded | E_InfiniteValue | E_NotANumber.",
+               "(* enum TryFromDecimalError *)",
+               "Inductive tferr := TE_NotAnIntValue | TE_ValueOutOfRange.", ""]
     try:
         st_dec, base_dec = generate(DEC_TARGETS, [], OUT_DEC, hdr_dec, "dec", base)
     except Exception as ex:
@@ -2232,15 +2254,32 @@ def main():
     except Exception as ex:
         st_int = {"translated": [], "failed": {"GenInt.v": "translator error: %r" % (ex,)}, "missing": []}
         print("rs2v[int]: translator error %r" % (ex,))
+    conv_files = ["src/lib.rs", "src/from_int.rs", "src/into_int.rs"]
+    try:
+        acc = dict(fns={}, consts={}, macros={}, impl_consts={})
+        for f in conv_files:
+            parse_file(f, acc)
+        by_file = {}
+        for k, f in acc["fns"].items():
+            if re.match(r"^(From|TryFrom)_", k):
+                by_file.setdefault(f["file"], []).append(k)
+        hdr_conv = ["(* GENERATED by tools/rs2v.py from /repo's current source - do not edit.  The integer conversions",
+                    "   (src/from_int.rs, src/into_int.rs), in terms of GenCore.v and GenDec.v. *)",
+                    "From FP Require Import Machine GenCore GenDec.", ""]
+        st_conv, _ = generate([(f, by_file.get(f, [])) for f in conv_files], [], OUT_CONV, hdr_conv, "conv", base_dec)
+    except Exception as ex:
+        st_conv = {"translated": [], "failed": {"GenConv.v": "translator error: %r" % (ex,)}, "missing": []}
+        print("rs2v[conv]: translator error %r" % (ex,))
     status = dict(st_core)
     status["dec"] = st_dec
     status["int"] = st_int
+    status["conv"] = st_conv
     with open(STATUS, "w") as fh:
         json.dump(status, fh, indent=1, sort_keys=True)
     print("rs2v: %d functions translated, %d failed, %d missing" % (
-        len(st_core["translated"]) + len(st_dec["translated"]) + len(st_int["translated"]),
-        len(st_core["failed"]) + len(st_dec["failed"]) + len(st_int["failed"]),
-        len(st_core["missing"]) + len(st_dec["missing"]) + len(st_int["missing"])))
+        len(st_core["translated"]) + len(st_dec["translated"]) + len(st_int["translated"]) + len(st_conv["translated"]),
+        len(st_core["failed"]) + len(st_dec["failed"]) + len(st_int["failed"]) + len(st_conv["failed"]),
+        len(st_core["missing"]) + len(st_dec["missing"]) + len(st_int["missing"]) + len(st_conv["missing"])))
     return 0
 
 
